@@ -68,6 +68,12 @@ CLAIMED = {
         "Solver licence-limit errors are discarded; Z3 reports no strategy so its capacity clause is skipped; pre-states that are not jointly feasible are discarded as unreachable.",
         "DESIGN.md 3 C10",
     ),
+    "C11": (
+        "Hypothesis-generated partially executed DAG states offered wholly or partly to ILP / TetriSched-Gurobi / Z3; precedence predicates on the returned plan and on up to 200 feasible points of the captured Gurobi models (solution-pool enumeration)",
+        "Validity predicate (child placed => co-decided parents placed and child.start >= parent.start + chosen runtime; >= expected finish of running/scheduled parents) on returned plans and on sampled feasible points decoded through the scheduler's own variables. Exploration; the feasible set is sampled.",
+        "No conditional regions; licence-limited model sizes; weakest reading of 'chosen or worst-case' runtime.",
+        "DESIGN.md 3 C11",
+    ),
     "C12": (
         "Hypothesis-generated boundary-deadline scheduler inputs for every enforcing policy; returned plans plus up to 200 feasible points of the captured Gurobi models (solution-pool enumeration decoded through the scheduler's own variables); generated end-to-end planner runs",
         "Admission predicate (hopeless => cancel / unplaced, never placed; feasible => not cancelled), start+runtime <= deadline on the returned plan and on enumerated feasible points of the ILP / TetriSched-Gurobi models, completion <= deadline in planner runs with exact runtimes. Exploration; the feasible set is sampled, not exhausted.",
